@@ -322,6 +322,8 @@ static void summary_statistics(unsigned long long& unit)
 			if(!mc::mine(unit++)) continue;
 			std::vector<double> xs, ws;
 			for(int i = 0; i < n; i++) { xs.push_back(al[(i * (pat + 3) + 1) % 7] + 0.5 * i); ws.push_back(0.25 * (1 + (i * (pat + 2) + pat) % 5)); }
+			// pattern 5: unequal weights whose sum is exactly the number of points (mean weight exactly one)
+			if(pat == 5) { for(int i = 0; i < n; i++) ws[i] = 1.0; ws[0] = 0.5; ws[n - 1] = 1.5; if(n >= 4) { ws[1] = 1.75; ws[2] = 0.25; } }
 			auto wa = [&](const std::vector<double>& x, const std::vector<double>& w) { std::vector<DataPoint> d; for(size_t i = 0; i < x.size(); i++) d.push_back(DataPoint(x[i], w[i])); return Weighted_Average(d); };
 			std::vector<double> r = wa(xs, ws);
 			std::string key = "weighted,x=" + mc::decv(xs) + ",w=" + mc::decv(ws);
